@@ -85,7 +85,7 @@ fn parse_variable_bits(reader: &mut BsIoSliceReader, n: u32) -> Result<u32> {
 fn write_variable_bits(writer: &mut BitstreamIoWriter, value: u32, n: u32) -> Result<()> {
     let max = 1 << n;
 
-    if value > max {
+    if value >= max {
         let mut remaining = value;
 
         loop {
